@@ -1,6 +1,194 @@
-/- stub: property C05 has no model driver yet -/
+import ActixModel.Util
+import ActixModel.Model.DispBounds
+import ActixModel.Model.DispBoundsSim
+/-
+Line-protocol driver for C05.  One case = configuration tokens, input items (`+…`) and a script of
+stimuli (grammar: `harness/src/props/c05.rs`).  Output: one snapshot `T:C:D:P:A` per stimulus
+(after an initial poll), then `done= sd= st=`.  After the run the scheduler's event trace is folded
+through the machine of `Model/DispBounds.lean`: ` GUARD!` is appended if the machine refuses an
+event, ` ABS!` if its counters differ from the scheduler's.
+-/
 namespace ActixModel.Drv.C05
+open ActixModel.Util ActixModel.DispBounds ActixModel.DispBoundsSim
 
-def run (_line : String) : String := "unimplemented"
+def natOf (s : String) : Option Nat :=
+  if s.isEmpty then none else s.toNat?
+
+def splitOnce (s : String) (sep : Char) : Option (String × String) :=
+  match s.splitOn (String.singleton sep) with
+  | a :: b :: rest => some (a, joinWith (String.singleton sep) (b :: rest))
+  | _ => none
+
+def parseCxM (s : String) : Option (Nat × Nat) :=
+  match s.splitOn "x" with
+  | [c, m] => do some ((← natOf c), (← natOf m))
+  | _ => none
+
+def tailStr (s : String) : String := String.ofList (s.toList.drop 1)
+
+def parseSpec (s : String) : Option Spec :=
+  let cs := s.toList
+  let (cs, keep) := match cs.reverse with
+    | 'k' :: r => (r.reverse, true)
+    | _ => (cs, false)
+  match cs with
+  | ['e'] => some { kind := .empty, c := 0, m := 0, keep }
+  | ['n'] => some { kind := .nobody, c := 0, m := 0, keep }
+  | 's' :: r =>
+    match parseCxM (String.ofList r) with
+    | some (c, m) => if c = 0 || m = 0 then none else some { kind := .stream, c, m, keep }
+    | none => none
+  | 'z' :: r =>
+    match parseCxM (String.ofList r) with
+    | some (c, m) => if c = 0 || m = 0 then none else some { kind := .sized, c, m, keep }
+    | none => none
+  | _ => none
+
+def digitsN (n : Nat) : Nat := (toString n).length
+
+/-- tokens of one item, its byte size, and whether it is unparsable (must then be last) -/
+def itemToks (s : String) : Option (List Tok × Nat × Bool) :=
+  match s.toList with
+  | 'g' :: r => do
+    let h ← natOf (String.ofList r)
+    if h < 18 then none else some ([.head h .none], h, false)
+  | 'l' :: r => do
+    let (hs, ns) ← splitOnce (String.ofList r) ':'
+    let h ← natOf hs
+    let n ← natOf ns
+    if n = 0 || h < 17 + 16 + digitsN n + 4 then none
+    else some ([.head h (.len n), .raw n], h + n, false)
+  | c0 :: r =>
+    if c0 = 'k' || c0 = 'K' then do
+      let (hs, cm) ← splitOnce (String.ofList r) ':'
+      let h ← natOf hs
+      let (c, m) ← parseCxM cm
+      if h < 47 || c = 0 || m = 0 then none
+      else
+        let szl := hexDigits 64 c + 2
+        let one : List Tok := [.ctl szl, .cdat c, .ctl 2]
+        let body := (List.replicate m one).flatten
+        let body := if c0 = 'k' then body ++ [.clast 5] else body
+        some (.head h .chunked :: body, h + m * (szl + c + 2) + (if c0 = 'k' then 5 else 0), false)
+    else if c0 = 'j' then do
+      let n ← natOf (String.ofList r)
+      if n < 19 then none else some ([.junk n], n, true)
+    else if c0 = 'b' && r.isEmpty then some ([.bad 6], 6, true)
+    else none
+  | [] => none
+
+def parseItem (s : String) : Option (List Tok × Nat × Bool) :=
+  match s.splitOn "*" with
+  | [one] => itemToks one
+  | k :: rest => do
+    let rep ← natOf k
+    if 200000 < rep then none
+    else
+      let (ts, sz, bad) ← itemToks (joinWith "*" rest)
+      -- an unparsable item may only be the last one: a repetition of it is not
+      if bad && 1 < rep then none
+      else some ((List.replicate rep ts).flatten, rep * sz, bad && 0 < rep)
+  | [] => none
+
+structure Case where
+  wbs : Nat := 32768
+  seg : Nat := 1024
+  wseg : Nat := 0
+  hc : Bool := true
+  toks : Array (List Tok) := #[]
+  total : Nat := 0
+  sawBad : Bool := false
+  steps : Array Step := #[]
+
+def parseStep (w : String) : Option Step :=
+  match w.toList with
+  | 's' :: r => (natOf (String.ofList r)).map .avail
+  | ['S'] => some .availAll
+  | ['e'] => some .eof
+  | 'c' :: r => (natOf (String.ofList r)).map .credit
+  | ['C'] => some .creditAll
+  | 'r' :: r => (parseSpec (String.ofList r)).map .respond
+  | 'R' :: r => (parseSpec (String.ofList r)).map .auto
+  | 'w' :: r => (natOf (String.ofList r)).map .budget
+  | ['W'] => some .budgetAll
+  | ['p'] => some .poll
+  | _ => none
+
+def stripPrefix (w p : String) : Option String :=
+  if w.startsWith p then some (String.ofList (w.toList.drop p.length)) else none
+
+def parseTok (c : Case) (w : String) : Option Case :=
+  if let some v := stripPrefix w "wbs=" then do
+    let n ← natOf v
+    if n = 0 then none else some { c with wbs := n }
+  else if let some v := stripPrefix w "seg=" then do
+    let n ← natOf v
+    some { c with seg := n }
+  else if let some v := stripPrefix w "wseg=" then do
+    let n ← natOf v
+    some { c with wseg := n }
+  else if let some v := stripPrefix w "hc=" then some { c with hc := v != "0" }
+  else if let some v := stripPrefix w "+" then do
+    let (ts, sz, bad) ← parseItem v
+    -- nothing may follow an unparsable item; the stream is capped at 64 MiB
+    if c.sawBad && sz != 0 then none
+    else if 67108864 < c.total + sz then none
+    else some { c with toks := c.toks.push ts, total := c.total + sz, sawBad := c.sawBad || bad }
+  else do
+    let st ← parseStep w
+    some { c with steps := c.steps.push st }
+
+def parseCase (line : String) : Option Case :=
+  (words line).foldl (fun acc w => acc.bind fun c => parseTok c w) (some {})
+
+def showObs (s : Sim) : String :=
+  toString s.taken ++ ":" ++ toString s.calls ++ ":" ++ toString s.delivered ++ ":" ++
+    toString s.pulled ++ ":" ++ toString s.accepted
+
+/-- run-length encoded list of the statuses whose head the socket has accepted completely -/
+def rle : List Nat → String
+  | [] => "-"
+  | x :: xs =>
+    let rec go (cur : Nat) (cnt : Nat) (rest : List Nat) (acc : List String) : List String :=
+      match rest with
+      | [] => ((if cnt > 1 then toString cur ++ "x" ++ toString cnt else toString cur) :: acc).reverse
+      | y :: ys =>
+        if y = cur then go cur (cnt + 1) ys acc
+        else go y 1 ys ((if cnt > 1 then toString cur ++ "x" ++ toString cnt else toString cur) :: acc)
+    joinWith "," (go x 1 xs [])
+
+def statuses (s : Sim) : List Nat :=
+  (s.heads.reverse.filter fun (e : Nat × Nat) => e.1 ≤ s.accepted).map (·.2)
+
+/-- fold the machine over the trace; compare counters -/
+def absCheck (s : Sim) : String :=
+  let cfg : Cfg := { wbs := s.wbs, readCap := s.seg, minHead := 16 }
+  match DispBounds.run cfg DispBounds.init s.trace.reverse with
+  | none => " GUARD!"
+  | some a =>
+    let chanLen : Option Nat := match s.plOwner with
+      | some rid => (match findChan s rid with | some c => some c.len | none => some 0)
+      | none => none
+    if a.rb = s.rb && a.wb = s.wb && a.q = qlen s && a.pl.map (·.len) = chanLen then ""
+    else " ABS!"
+
+def runSteps (s : Sim) (steps : List Step) (acc : List String) : Sim × List String :=
+  match steps with
+  | [] => (s, acc.reverse)
+  | st :: rest =>
+    let s := settle 200000 (applyStep s st) 0
+    runSteps s rest (showObs s :: acc)
+
+def run (line : String) : String :=
+  match parseCase line with
+  | none => "bad-case"
+  | some c =>
+    if c.seg = 0 then "greedy"
+    else
+      let s0 : Sim := { wbs := c.wbs, seg := c.seg, wseg := c.wseg, hc := c.hc,
+                        toks := c.toks.toList.flatten, rb := 0, sockAvail := 0, sockRest := c.total }
+      let (s, outs) := runSteps s0 (.poll :: c.steps.toList) []
+      joinWith " " outs ++ " done=" ++ (s.done.getD "-") ++ " sd=" ++ (if s.sd then "1" else "0") ++
+        " st=" ++ rle (statuses s) ++ absCheck s
 
 end ActixModel.Drv.C05
